@@ -89,6 +89,35 @@ def sched_params():
     return out
 
 
+def values_params():
+    out = dict(deser='DUnknown', setstate='SSUnknown')
+    ser = _src('serialization.py')
+    fn = _find(ser, 'Serializer', 'deserialize_value')
+    if fn is not None:
+        d = _dump(fn)
+        calls_task = 'is_serialized_task' in d and 'deserialize_task' in d
+        calls_enum = 'is_serialized_enum' in d and 'deserialize_enum' in d
+        rec_list = any(isinstance(n, (ast.ListComp, ast.GeneratorExp)) and 'deserialize_value' in _dump(n) for n in ast.walk(fn))
+        rec_dict = any(isinstance(n, ast.DictComp) and 'deserialize_value' in _dump(n.value) for n in ast.walk(fn))
+        if calls_task and calls_enum:
+            if rec_list and rec_dict:
+                out['deser'] = 'DRecursive'
+            elif not rec_list and not rec_dict and 'deserialize_value' not in _dump(ast.Module(body=fn.body, type_ignores=[])):
+                out['deser'] = 'DShallow'
+    tasks = _src('tasks.py')
+    fn = _find(tasks, '_task__setstate__')
+    if fn is not None:
+        d = _dump(fn)
+        sets = [n for n in ast.walk(fn) if isinstance(n, ast.Call) and _dump(n.func).endswith("'__setattr__', Load())")
+                and len(n.args) == 3 and isinstance(n.args[1], ast.Constant)]
+        names = {n.args[1].value for n in sets}
+        if {'context', 'result_meta'} <= names and 'orig_post_init' in d:
+            out['setstate'] = 'SSReinit'
+        elif not names and 'orig_post_init' not in d:
+            out['setstate'] = 'SSPlain'
+    return out
+
+
 def render():
     sp = sched_params()
     lines = [
@@ -97,6 +126,9 @@ def render():
         'Definition sched_params : params :=',
         '  {| p_cmp := %(p_cmp)s; p_dep_guard := %(p_dep_guard)s; p_missing := %(p_missing)s; p_final := %(p_final)s |}.' % sp,
     ]
+    vp = values_params()
+    lines += ['Definition deser_mode_src : deser_mode := %(deser)s.' % vp,
+              'Definition setstate_mode_src : setstate_mode := %(setstate)s.' % vp]
     for extra in EXTRA_RENDERERS:
         lines += extra()
     return '\n'.join(lines) + '\n'
